@@ -11,6 +11,8 @@ mod c07;
 mod c08;
 mod c10;
 mod c11;
+mod c15;
+mod c16;
 mod claims;
 mod common;
 mod dbg;
@@ -43,6 +45,8 @@ fn gen(prop: &str, tier: &str, seed: u64, out: &str) {
         "C05" => c05::gen_c05(&mut em, &mut rng),
         "C10" => c10::gen_c10(&mut em, &mut rng),
         "C07" => c07::gen_c07(&mut em, &mut rng),
+        "C15" => c15::gen_c15(&mut em, &mut rng),
+        "C16" => c16::gen_c16(&mut em, &mut rng),
         "C12" => c07::gen_c12(&mut em, &mut rng),
         "C09" => c05::gen_c09(&mut em, &mut rng),
         "C04" => c11::gen_c04(&mut em, &mut rng),
